@@ -24,4 +24,14 @@ CLAIMS = {
   "note": TB + "The re-encode clause is covered by C01.unpack_encode for decoded messages that are representable; a direct theorem "
           "(decoded message is representable) is listed as future work in DESIGN.md. Allocation of the Go runtime is measured, not modelled.",
  },
+ "C20": {
+  "technique": "Lean 4 proof (ring refines last-N by an invariant over all histories; Filter loop termination and specification; queue system invariants) + differential correspondence",
+  "text": "ring_refines_lastN and filter_spec: for every capacity n>=1 and every history of any length, the mirror of doLog holds exactly "
+          "the last n logged entries and the mirrored two-pass Filter loop terminates and returns the matching ones in logged order "
+          "(hence filter_sublist: only logged entries, in order, at most n). sinv_run/filter_sees_prefix/filter_converges/logger_no_deadlock: "
+          "in every reachable state of the producers->queue(16)->ring system, under any interleaving, Filter sees a prefix short by at most 16 "
+          "entries, converges once the queue drained, and some step is always enabled. Correspondence: real Logger vs model on random "
+          "sequential sessions (exact after drain), undrained filters and concurrent producers validated by the model as acceptor.",
+  "note": TB + "Modelled not verified: Go channels/select as FIFO queue with capacity 16 and fair scheduling; no real-time bound; Resize not covered.",
+ },
 }
